@@ -252,6 +252,12 @@ func (p *c06) Exec(t *testing.T, scAny any) Outcome {
 						// saved to disk): rendering must not fix or alter any address state
 						_, _ = Render(m)
 					}
+					if oi > 0 && (oi+mi+int(sc.Sched/3%4))%2 == 1 {
+						// the caller looks at what the envelope would be right now (to log it, to
+						// decide about the next call): reading must not fix anything either
+						_, _ = m.GetRecipients()
+						_, _ = m.GetSender(oi%2 == 0)
+					}
 					var texts []string
 					for _, a := range op.Addrs {
 						texts = append(texts, addrText(a))
